@@ -54,6 +54,8 @@ def main():
                         replay = "unreadable replay %r" % (e,)
                 entry["checks"][pid] = dict(exit=rc, violation=viol[0] if viol else "", detail=replay, wall=round(time.time() - t0, 1))
                 print("%s  %s  exit=%d  %s  %s" % (name, pid, rc, viol[0] if viol else "no alarm", replay[:160]))
+            # (a change may add files: take the patch back first, then restore whatever is left)
+            sh("git -C /repo apply -R %s" % os.path.join(d, "patch.diff"))
             sh("git -C /repo checkout -- .")
             entry["caught"] = any(c["exit"] != 0 for c in entry["checks"].values())
             results[name] = entry
